@@ -5,17 +5,20 @@ Open Scope string_scope.
 
 Inductive case :=
 | CLint (C : Circuit) (ff ul ud si : bool) (obs : res unit)      (* lint on an arbitrary attributed graph *)
-| CProduced (fn : string) (C : Circuit) (obs : res unit).         (* output of a library function, and what lint said about it *)
+| CProduced (fn : string) (C : Circuit) (obs : res unit)          (* output of a library function, and what lint said about it *)
+| CBoth (a b : case).                                             (* result and argument-after-the-call of one run *)
 
 Definition flags ff ul ud si := {| fail_fast := ff; unloaded := ul; undriven := ud; single_in := si |}.
-Definition agree (k : case) : bool :=
+Fixpoint agree (k : case) : bool :=
   match k with
   | CLint C ff ul ud si obs => bool_decide (lint C (flags ff ul ud si) = obs)
   | CProduced _ C obs => bool_decide (lint C default_flags = obs)
+  | CBoth a b => agree a && agree b
   end.
 (* the property itself, judged on what the implementation returned *)
-Definition holds (k : case) : bool :=
+Fixpoint holds (k : case) : bool :=
   match k with
   | CLint C ff ul ud si obs => bool_decide (obs = if violatesb C (flags ff ul ud si) then Raise ValueError else Ok ())
   | CProduced _ C obs => bool_decide (obs = Ok ()) && negb (violatesb C default_flags)
+  | CBoth a b => holds a && holds b
   end.
